@@ -708,9 +708,10 @@ func (s *AbsfsNFS) RenameWithContext(ctx context.Context, oldDir *NFSNode, oldNa
 	if err != nil {
 		return fmt.Errorf("rename: failed to rename %s to %s: %w", oldPath, newPath, err)
 	}
-	// Invalidate caches and negative cache entries
-	s.attrCache.Invalidate(oldPath)
-	s.attrCache.Invalidate(newPath)
+	// Invalidate caches and negative cache entries. When a directory moved,
+	// every path below its old and its new name is stale as well.
+	s.attrCache.InvalidatePrefix(oldPath)
+	s.attrCache.InvalidatePrefix(newPath)
 	s.attrCache.Invalidate(oldDir.path)
 	s.attrCache.Invalidate(newDir.path)
 	// Invalidate negative cache entries in both directories
@@ -719,6 +720,8 @@ func (s *AbsfsNFS) RenameWithContext(ctx context.Context, oldDir *NFSNode, oldNa
 	if s.dirCache != nil {
 		s.dirCache.Invalidate(oldDir.path)
 		s.dirCache.Invalidate(newDir.path)
+		s.dirCache.InvalidatePrefix(oldPath)
+		s.dirCache.InvalidatePrefix(newPath)
 	}
 	return nil
 }
